@@ -9,10 +9,10 @@ from pathlib import Path
 from vsym.pathex import And, Eq, Implies, Not, Or
 from vsym.runner import Ob
 
-PATHS = ("src/a.py", "src/app/b.py", "src/app/x.tmp", "srcfoo/c.py", "lib/d.py", "top.py", "docs/e.md",
+PATHS = ("src/a.py", "src/app/b.py", "src/app/x.tmp", "srcfoo/c.py", "lib/d.py", "top.py", "docs/e.md", "src/App/h.py", "Docs/i.md",
          "src/appx/f.py", "src/app/deep/g.py", "README", "src")
 PATTERNS = (r".*\.py$", r".*\.tmp$", r"^src/", r"^src/app/", r".*", r"\.md$", r"^never-matches$", r"(?i)B\.PY$")
-DIR_KEYS = ("src", "src/app", "/", "lib", "src/", "src/app/deep")
+DIR_KEYS = ("src", "src/app", "/", "lib", "src/", "src/app/deep", "src/App", "docs")     # directory names are case-sensitive (patterns are not)
 
 
 def covers(key, path):
@@ -57,7 +57,7 @@ SMALL = ("empty", "deny", "allow", "deny+allow")
 
 def make_h(tier):
     quick = tier == "quick"
-    paths = PATHS if not quick else PATHS[:8] + PATHS[-1:]
+    paths = PATHS if not quick else PATHS[:10] + PATHS[-1:]
     pats_small = PATTERNS[:4] if not quick else PATTERNS[:3]
 
     def h(ctx):
